@@ -26,5 +26,5 @@ AlphaHeavy(kd) == {o \in AlphaFull(kd) : IsTransient(o)} \cup {Ok, Api(401), Api
                   \cup (IF kd = "bulk" THEN {Bulk({429, 400}), Bulk({409})} ELSE IF kd = "bulk1" THEN {Bulk({400})} ELSE {})
 
 J0 == {0}
-JSim == {0, 1, 512, 1023}
+JSim == {0, 512, 1023}
 ====
